@@ -50,6 +50,9 @@ Min(a, b) == IF a <= b THEN a ELSE b
 (* ------------------------------------------------------------------------ *)
 nB1 == <<"BASE1">>   nB2 == <<"BASE2">>
 nTop == <<"t", "o", "p">>   nSrv == <<"s", "r", "v">>
+(* a sibling of the root whose NAME extends the root's name: as strings,     *)
+(* "/T/top/srv2/a" starts with "/T/top/srv" (partial-path-prefix confusion)  *)
+nSrv2 == <<"s", "r", "v", "2">>
 nA == <<"a">>   nD == <<"d">>   nF == <<"f">>   nE == <<"U+00E9">>
 TmpName == <<"TMP">>
 
@@ -58,10 +61,11 @@ Top  == Append(Base, nTop)
 Root == Append(Top, nSrv)     \* what the file server is started with
 
 Dirs == {SubSeq(Root, 1, k) : k \in 0..Len(Root)}
-          \cup {Append(Root, nD), Append(Top, nD), Append(Base, nD)}
+          \cup {Append(Root, nD), Append(Top, nD), Append(Base, nD), Append(Top, nSrv2)}
 
 InsideFiles  == {Append(Root, nA), Root \o <<nD, nF>>, Append(Root, nE)}
 OutsideFiles == {Append(Top, nA), Top \o <<nD, nF>>,       \* siblings of the root
+                 Top \o <<nSrv2, nA>>,                      \* ... in the look-alike sibling
                  Append(Base, nA), Base \o <<nD, nF>>}     \* an ancestor's
 Fs0 == [p \in InsideFiles \cup OutsideFiles |-> "orig"]
 
@@ -124,8 +128,17 @@ C19_Contained(o) ==
 
 NoModification(o) == o.chg = {} /\ \A e \in o.eff : e.k \notin Modifying
 
+(* "a request that would lead anywhere else [than to an object inside the    *)
+(* root] is answered with an error response and has no effect".  A path with *)
+(* a NUL (which the statement names explicitly) leads to no object at all,   *)
+(* hence not to one inside the root: it must be an error, and the file       *)
+(* system must be the same afterwards.  (For it a spool file that was        *)
+(* created and removed again INSIDE the root is tolerated -- PUT ("x\0",)    *)
+(* does that; anywhere else C19_Contained forbids it.)                       *)
 C19_OutsideIsErrorNoEffect(o) ==
-  Target(o.u).k = "outside" => (o.resp = "err" /\ NoModification(o))
+  LET t == Target(o.u).k IN
+  /\ t = "outside" => (o.resp = "err" /\ NoModification(o))
+  /\ t = "invalid" => (o.resp = "err" /\ o.chg = {})
 
 C19_ReadOnlyNoWrite(o) == ~o.w => NoModification(o)
 
@@ -286,10 +299,28 @@ Alphabet == { << >>, DotSeg, DotDotSeg, nA, nD, <<Dot, Dot, Slash, "a">>, <<"d",
 Lists(k) == UNION {[1..j -> Alphabet] : j \in 0..k}
 (* absolute probes: a leading empty component followed by the names of a     *)
 (* real directory (the temp directory, the root's parent, the root itself)   *)
-AbsProbes == {<< << >> >> \o p \o s : p \in {Base, Top, Root}, s \in Lists(2)}
-UriPaths   == TLCEval(Lists(MaxLen) \cup AbsProbes)
-LaterPaths == TLCEval(Lists(LaterLen) \cup AbsProbes)
-Methods == {"GET", "PUT", "DELETE", "POST", "FETCH"}
+AbsProbes == {<< << >> >> \o p \o s : p \in {Base, Top}, s \in Lists(2)}
+               \cup {<< << >> >> \o Root \o s : s \in Lists(1)}
+(* sibling probes: out of the root and into the sibling whose name extends   *)
+(* the root's name ("..", "srv2", ...), also with the ".." further down and  *)
+(* as one component with embedded slashes                                    *)
+SiblingProbes == {<<DotDotSeg, nSrv2>> \o s : s \in Lists(1)}
+                   \cup {<<nD, DotDotSeg, DotDotSeg, nSrv2, nA>>,
+                         << <<Dot, Dot, Slash>> \o nSrv2 \o <<Slash, "a">> >>}
+(* decorated dot components: "." / ".." with a character that a sanitising   *)
+(* step might remove or decode glued to them ("..\0", ".\0.", "\0..", ".\0", *)
+(* "..%00", "%2e%2e", ".. ")                                                 *)
+Pct == "U+0025"
+DecoratedDots == { <<Dot, Dot, Nul>>, <<Dot, Nul, Dot>>, <<Nul, Dot, Dot>>, <<Dot, Nul>>,
+                   <<Dot, Dot, Pct, "0", "0">>, <<Pct, "2", "e", Pct, "2", "e">>, <<Dot, Dot, "U+0020">> }
+DecoratedProbes == {<<c>> \o s : c \in DecoratedDots, s \in Lists(1)}
+                     \cup {<<nD, c, c, nA>> : c \in DecoratedDots}
+Probes == AbsProbes \cup SiblingProbes \cup DecoratedProbes
+UriPaths   == TLCEval(Lists(MaxLen) \cup Probes)
+LaterPaths == TLCEval(Lists(LaterLen) \cup Probes)
+(* every CoAP request method (RFC 7252, 8132); the check compares this set   *)
+(* with the request codes of aiocoap.Code                                    *)
+Methods == {"GET", "PUT", "DELETE", "POST", "FETCH", "PATCH", "iPATCH"}
 (* conditional options: none; If-Match (ETag for GET) stale / current;      *)
 (* If-Match with the empty ETag; If-None-Match -- for the methods that look  *)
 (* at them                                                                   *)
